@@ -6,6 +6,8 @@ use ckb_types::{
     utilities::merkle_mountain_range::VerifiableHeader,
 };
 use log::{debug, error};
+#[cfg(feature = "verif")]
+use crate::verif_hooks::rand_shim as rand;
 use rand::seq::SliceRandom;
 
 use crate::storage::HeaderWithExtension;
